@@ -7,8 +7,8 @@
    6 UINT32, 32 FLOAT32, 33 FLOAT64), StrT for strings, BytesT for the bytes of an integer array,
    -32 / -33 for the (opaque) bytes of a float array.
      integer element : an Int                       (UINT32 only below 2^31: TLC integers)
-     float element   : [k, fx, ex]  k = "fin"   value fx / 2^20 (ex) or within 2^-21 of it (~ex), |value| < 1024
-                                    k = "whole" value fx: integer-valued, 1024 <= |fx| < 2^31
+     float element   : [k, fx, ex]  k = "fin"   value fx / 2^20 (ex) or within 2^-21 of it (~ex), |value| <= 1024 (inputs: < 1024)
+                                    k = "whole" value fx (ex) or within 1/2 of it (~ex), 1024 < |fx| < 2^31
                                     k = "nan" | "pinf" | "ninf"      (fx = 0)
                                     k = "junk"  any other float (e.g. what overflow produces)
      string element  : a sequence of character tokens
@@ -117,7 +117,8 @@ EncFP(e, A) ==
 DecFP(e, B) ==
   LET F == e[2]
       One(q) == IF q = MinInt32 THEN Junk
-                ELSE IF Abs(q) \div F >= 1024 THEN (IF q % F = 0 THEN Whole(q \div F) ELSE Junk)
+                ELSE IF Abs(q) \div F > 1024 \/ (Abs(q) \div F = 1024 /\ Abs(q) % F # 0)
+                     THEN (IF q % F = 0 THEN Whole(q \div F) ELSE Junk)
                 ELSE FinApprox((q \div F) * Scale + RoundHalfEven((q % F) * Scale, F), ((q % F) * Scale) % F = 0)
   IN IF B.t \notin IntTypes THEN DRej ELSE D("ok", Arr(e[3][1], [i \in DOMAIN B.v |-> One(B.v[i])]))
 
@@ -161,13 +162,14 @@ DecRL(e, B) ==
           ELSE D("ok", Arr(e[3][1], out))
 
 (* ================================================================== Delta *)
-\* (data - origin), np.diff(prepend = 0) in the dtype of the data, then astype(int32);
+\* (data - origin) in the dtype of the data, np.diff(prepend = 0), then astype(int32);
 \* decode: cumsum in src_type, + origin.  Modular arithmetic makes this exact for 8/16 bits.
 EncDE(e, A) ==
   LET t == A.t
       og == OptOr(e[3], IF A.v = <<>> THEN 0 ELSE A.v[1])
       sh == [i \in DOMAIN A.v |-> Wrap(t, A.v[i] - og)]
-      df == [i \in DOMAIN A.v |-> Wrap(t, sh[i] - (IF i = 1 THEN 0 ELSE sh[i - 1]))]
+      \* np.diff(..., prepend=0) promotes to int64: the differences themselves do not wrap
+      df == [i \in DOMAIN A.v |-> sh[i] - (IF i = 1 THEN 0 ELSE sh[i - 1])]
       e2 == <<"DE", Some(OptOr(e[2], t)), Some(og)>>
   IN IF t \notin IntTypes THEN Rej(e)
      ELSE IF e[3] = None /\ A.v = <<>> THEN Rej(e)              \* origin = data[0]
@@ -225,7 +227,9 @@ EncSA(e, A) ==
   ELSE LET strings == OptOr(e[2], Uniq(A.v)) IN
        IF \E i \in DOMAIN A.v : \A j \in DOMAIN strings : strings[j] # A.v[i] THEN Rej(e)   \* not in 'strings'
        ELSE LET r == EncodeChain(e[3], Arr(3, [i \in DOMAIN A.v |-> IndexIn(strings, A.v[i])]))
-            IN R(r.oc, r.a, <<"SA", Some(strings), r.e, e[4]>>)
+                \* serialize() also encodes the offsets of the strings with the offset encoding
+                o == EncodeChain(e[4], Arr(3, FoldLeft(LAMBDA acc, s : Append(acc, acc[Len(acc)] + Len(s)), <<0>>, strings)))
+            IN IF o.oc # "ok" THEN Rej(e) ELSE R(r.oc, r.a, <<"SA", Some(strings), r.e, o.e>>)
 DecSA(e, B) ==
   LET r == DecodeChain(e[3], B) IN
   IF r.oc # "ok" THEN DRej
@@ -309,16 +313,25 @@ KB_Chain(chain, A) ==
          \cup (IF chain[1][1] = "IQ" /\ ~Holds(chain[1], A) THEN {"IntervalUnchecked"} ELSE {})
          \cup KB_Chain(Tail(chain), r.a)
 
+\* for a whole BinaryCIFData: only if the code gets as far as writing bytes
+KB_Data(chain, A) == IF SerializeData(chain, A).oc = "ok" THEN KB_Chain(chain, A) ELSE {}
+
 (* ------------------------------------------------------------------ domain *)
 Dom_NoWrap32(A) == A.t \in {3, 6} => \A i \in DOMAIN A.v : -536870912 <= A.v[i] /\ A.v[i] <= 536870912   \* 2^29
 Dom_Elem(t, x) ==
   IF t \in IntTypes THEN Fits(t, x)
   ELSE IF t \in FloatTypes THEN
        CASE x.k = "fin" -> x.ex /\ Abs(x.fx) < 1073741824 /\ (t = 32 => x.fx % 128 = 0 \/ Abs(x.fx) < 16777216)
-         [] x.k = "whole" -> Abs(x.fx) >= 1024 /\ Abs(x.fx) <= MaxInt32 /\ (t = 32 => Abs(x.fx) < 16777216 \/ x.fx % 256 = 0)
+         [] x.k = "whole" -> Abs(x.fx) > 1024 /\ Abs(x.fx) <= MaxInt32 /\ (t = 32 => Abs(x.fx) < 16777216 \/ x.fx % 256 = 0)
          [] OTHER -> x.k \in {"nan", "pinf", "ninf"}
   ELSE TRUE
 Dom_Array(A) == \A i \in DOMAIN A.v : Dom_Elem(A.t, A.v[i])
+\* INT_MIN (what the unchecked float -> int32 cast produces) cannot go through the model's Delta /
+\* IntegerPacking arithmetic (TLC integers are 32 bit): such chains are only modelled on arrays the
+\* lossy step can hold
+Dom_ArithSafe(chain, A) ==
+  (chain # <<>> /\ chain[1][1] \in {"FP", "IQ"} /\ \E i \in 2..Len(chain) : chain[i][1] \in {"DE", "IP"})
+     => Holds(chain[1], A)
 \* ByteArray of a float array keeps the type (a narrower float is lossy by nature, an integer
 \* array is not stored as float)
 Dom_Enc(e, t) ==
@@ -328,6 +341,12 @@ Dom_Enc(e, t) ==
     [] e[1] = "DE" -> (e[2] = None \/ e[2][1] = t) /\ t \in IntTypes
     [] e[1] \in {"RL", "IP"} -> t \in IntTypes
     [] e[1] = "SA" -> t = StrT
+\* IntegerPacking.decode takes the bounds from the dtype of the array it is given (not from its own
+\* byte_count / is_unsigned): the ByteArray that follows must keep the packed type (type omitted)
+RECURSIVE Dom_Chain(_)
+Dom_Chain(chain) ==
+  /\ \A i \in 1..(Len(chain) - 1) : (chain[i][1] = "IP" /\ chain[i + 1][1] = "BA") => chain[i + 1][2] = None
+  /\ \A i \in DOMAIN chain : chain[i][1] = "SA" => Dom_Chain(chain[i][3]) /\ Dom_Chain(chain[i][4])
 \* FixedPoint arithmetic is exact in the float type of the data: x * F has at most 24 / 53 bits
 Dom_FixedExact(e, A) ==
   (e[1] = "FP" /\ A.t = 32) => \A i \in DOMAIN A.v :
@@ -365,9 +384,9 @@ OverflowThrFx == <<225179, 22517, 2251, 225, 22, 2>>      \* floor(2^51 / 10^d) 
 MayOverflow(x, d) ==
   LET mag == IF x.k = "whole" THEN Abs(x.fx) ELSE Abs(x.fx) \div Scale IN     \* floor |x|
   IF d <= 0 THEN FALSE
-  ELSE IF d <= 9 THEN mag + 1 > MaxInt32 \div Pow10(d)
+  ELSE IF d <= 9 THEN mag >= MaxInt32 \div Pow10(d)
   ELSE IF x.k = "whole" THEN TRUE
-  ELSE IF d <= 15 THEN Abs(x.fx) + 1 >= OverflowThrFx[d - 9]
+  ELSE IF d <= 15 THEN Abs(x.fx) >= OverflowThrFx[d - 9] - 1
   ELSE Abs(x.fx) > 0
 KB_CompressFloat(A, hasFP, d) ==
   A.t \in FloatTypes /\ hasFP /\ \E i \in DOMAIN A.v : ~IsFinite(A.v[i]) \/ MayOverflow(A.v[i], d)
